@@ -490,6 +490,16 @@ class EvolvableCNN(EvolvableModule):
         else:
             return self.add_channel()
 
+    def _kernels_fit(self) -> bool:
+        """Checks that the feature maps are never smaller than the kernel applied to them."""
+        height, width = self.input_shape[-2:]
+        for k_size, stride in zip(self.mut_kernel_size.int_sizes, self.stride_size):
+            if k_size > height or k_size > width:
+                return False
+            height = (height - k_size) // stride + 1
+            width = (width - k_size) // stride + 1
+        return True
+
     @mutation(MutationType.NODE)
     def change_kernel(
         self, kernel_size: Optional[int] = None, hidden_layer: Optional[int] = None
@@ -510,6 +520,7 @@ class EvolvableCNN(EvolvableModule):
                     0
                 ]
 
+            old_sizes = list(self.mut_kernel_size.sizes)
             new_kernel_size = self.mut_kernel_size.change_kernel_size(
                 hidden_layer,
                 self.channel_size,
@@ -517,6 +528,11 @@ class EvolvableCNN(EvolvableModule):
                 self.input_shape,
                 kernel_size,
             )
+
+            # HARD LIMIT: every layer must still see an input at least as large as its kernel
+            if not self._kernels_fit():
+                self.mut_kernel_size.sizes = old_sizes
+                new_kernel_size = self.mut_kernel_size.int_sizes[hidden_layer]
         else:
             return self.add_layer()
 
